@@ -228,6 +228,23 @@ func propDecisionTable(c *Case) {
 			ctx = cache.WithTTL(ctx, callerTTL, false)
 		}
 
+		// the table has no column for the state of the caller's context: a caller that has already
+		// given up (cancelled / past its deadline) gets the same decisions
+		switch c.Weighted("caller-ctx-done", 6, 1, 1) {
+		case 1:
+			var cancel context.CancelFunc
+
+			ctx, cancel = context.WithCancel(ctx)
+			cancel()
+			c.Class("caller-context-cancelled")
+		case 2:
+			var cancel context.CancelFunc
+
+			ctx, cancel = context.WithDeadline(ctx, time.Now().Add(-time.Second))
+			c.OnClose(0, cancel)
+			c.Class("caller-context-past-deadline")
+		}
+
 		t0 := time.Now()
 		buf := append([]byte{}, key...)
 
